@@ -46,6 +46,7 @@ const (
 	KMapSS       Kind = "map[string]string"
 	KMapSI       Kind = "map[string]int"
 	KMapIS       Kind = "map[int]string"
+	KLvl         Kind = "Lvl"   // int8-kinded type that also has UnmarshalText/MarshalText (which the library does not use)
 	KValid       Kind = "Valid" // string type that validates separate-token arguments itself (ValueValidator)
 	KUpper       Kind = "Upper"
 	KUpperSlice  Kind = "[]Upper"
@@ -65,6 +66,26 @@ const (
 // (the empty text denotes the zero value, so that marshalling is the inverse of
 // unmarshalling on every reachable value); text containing "!bad" denotes nothing.
 type Upper string
+
+// Lvl is an integer type that additionally implements the standard library's
+// encoding.TextUnmarshaler / TextMarshaler with a symbolic spelling. The option
+// parser documents conversion by kind and by its own Unmarshaler interface only,
+// so these methods must play no part.
+type Lvl int8
+
+func (l *Lvl) UnmarshalText(b []byte) error {
+	switch string(b) {
+	case "LOW":
+		*l = 1
+	case "HIGH":
+		*l = 100
+	default:
+		return fmt.Errorf("lvl: unknown level %q", b)
+	}
+	return nil
+}
+
+func (l Lvl) MarshalText() ([]byte, error) { return []byte(fmt.Sprintf("LEVEL(%d)", int8(l))), nil }
 
 // Valid decides itself which separate-token arguments it takes (ValueValidator):
 // anything not starting with a dash, and option-looking tokens starting "-ok".
@@ -173,6 +194,7 @@ var kindTypes = map[Kind]reflect.Type{
 	KMapSS:       reflect.TypeOf(map[string]string(nil)),
 	KMapSI:       reflect.TypeOf(map[string]int(nil)),
 	KMapIS:       reflect.TypeOf(map[int]string(nil)),
+	KLvl:         reflect.TypeOf(Lvl(0)),
 	KValid:       reflect.TypeOf(Valid("")),
 	KUpper:       reflect.TypeOf(Upper("")),
 	KUpperSlice:  reflect.TypeOf([]Upper(nil)),
@@ -242,7 +264,7 @@ func (k Kind) IsSignedNum() bool {
 		return false
 	}
 	switch k.Elem() {
-	case KInt, KInt8, KInt16, KInt32, KInt64, KFloat32, KFloat64, KDuration:
+	case KInt, KInt8, KInt16, KInt32, KInt64, KLvl, KFloat32, KFloat64, KDuration:
 		return true
 	}
 	return false
